@@ -288,6 +288,17 @@ def _payload_of_actisense(s: str) -> bytes:
     return bytes.fromhex(parts[2]) if len(parts) > 2 else b""
 
 
+def _payload_of_ebyte(frames, fast=False) -> bytes:
+    """payload part of encode_ebyte's packets: byte 0 low nibble = number of data bytes, bytes 5.. = data; one packet =
+    the payload itself, several = fast-packet frames (counter byte, first frame also the length byte)"""
+    datas = [bytes(f[5:5 + (f[0] & 0x0F)]) for f in frames]
+    if not fast:
+        return datas[0] if len(datas) == 1 else b"".join(datas)
+    total = datas[0][1]
+    body = datas[0][2:] + b"".join(x[1:] for x in datas[1:])
+    return body[:total]
+
+
 def _decode(dec, d, p, nbytes=None):
     nbytes = nbytes or max(d.get("Length", 0) if isinstance(d.get("Length"), int) else 0, (p.bit_length() + 7) // 8, 1)
     data = p.to_bytes(nbytes, "little")
@@ -332,6 +343,16 @@ def c02_check(d, p, dec, enc):
         return dict(base, key=f"reencode:raises:{cls}", what=f"PGN {d['PGN']} {d['Id']} payload {p:#x}: decoded, but re-encoding raised {e!r}")
     if "Length" in d and isinstance(d["Length"], int) and len(out) != d["Length"]:
         return dict(base, key="reencode:length", what=f"PGN {d['PGN']} {d['Id']}: re-encoded length {len(out)}, definition {d['Length']}")
+    # the other place the property names: the payload part of encode_ebyte's packets is that same payload
+    try:
+        out_e = _payload_of_ebyte(enc.encode_ebyte(m), fast=(d.get("Type") == "Fast"))
+    except Exception as e:  # noqa: BLE001
+        return dict(base, key="reencode:ebyte-raises",
+                    what=f"PGN {d['PGN']} {d['Id']} payload {p:#x}: encode_actisense gives {out.hex()} but encode_ebyte raised {e!r}")
+    if out_e != out:
+        return dict(base, key="reencode:ebyte-payload-differs",
+                    what=f"PGN {d['PGN']} {d['Id']} payload {p:#x}: payload part of encode_ebyte's packets is {out_e.hex()} "
+                         f"({len(out_e)} bytes), of encode_actisense {out.hex()} ({len(out)} bytes), definition length {d.get('Length')}")
     q = int.from_bytes(out, "little")
     for i, f in enumerate(d["Fields"]):
         off, n = f["BitOffset"], f["BitLength"]
